@@ -6,6 +6,7 @@ mod gen;
 mod hist;
 mod kinds;
 mod model;
+mod pairs;
 mod pool;
 mod sem;
 mod world;
@@ -127,6 +128,48 @@ fn cmd_hist(a: &Args) -> Ev {
     ev
 }
 
+fn cmd_pairs(a: &Args) -> Ev {
+    let prop = a.s("prop", "C05");
+    let kind = a.s("kind", "u8");
+    let seed = a.u("seed", 1);
+    let shard = a.u("shard", 0);
+    let rounds = a.u("rounds", 200);
+    let per_round = a.u("pairs", 40) as usize;
+    let budget = Budget::new(a.u("time", 0));
+    let only = a.0.get("only_run").and_then(|v| v.parse::<u64>().ok());
+    let mut ev = Ev::new(&prop);
+    let (w, keeps) = kinds::kind_facts(&kind);
+    let uni = universe(w, None);
+    let mut run = 0u64;
+    let mut done = 0u64;
+    while done < rounds && !budget.expired() && ev.violations.is_empty() {
+        let ri = only.unwrap_or(run);
+        run += 1;
+        let rng = Rng::from_parts(&[seed, shard, ri, 0x5052]);
+        let mut g = gen::Gen::new(w, keeps, uni.clone(), rng, false);
+        g.max_keys = a.u("max_keys", 24) as usize;
+        let mut rj = a.json();
+        rj["cmd"] = json!("pairs");
+        rj["only_run"] = json!(ri);
+        let mut pr = pairs::PairRun::new(world::new_world(&kind), &prop, g, rj);
+        // several rounds on the same evolving operands
+        for _ in 0..8 {
+            if done >= rounds || budget.expired() {
+                break;
+            }
+            done += 1;
+            ev.count("rounds", 1);
+            if !pr.round(&mut ev, per_round) {
+                break;
+            }
+        }
+        if only.is_some() {
+            break;
+        }
+    }
+    ev
+}
+
 fn cmd_pool(a: &Args) -> Ev {
     let kind = a.s("kind", "u8");
     let seed = a.u("seed", 1);
@@ -159,6 +202,7 @@ fn main() {
     let ev = match cmd.as_str() {
         "hist" => cmd_hist(&a),
         "pool" => cmd_pool(&a),
+        "pairs" => cmd_pairs(&a),
         _ => {
             eprintln!("usage: ptv <hist|...> key=value ...");
             std::process::exit(2);
